@@ -82,13 +82,15 @@ def plan(tier):
     if tier == "quick":
         return dict(n_cases=28 * len(CLASSES), shards=1, classes=CLASSES, timeout_s=900,
                     min_evals={"lp_gain": 1200, "lp_hard_edge": 700, "lp_soft_edge": 400, "lp_soft_rays": 300, "lp_soft_symmetry": 220,
-                               "hp_gain": 1200, "hp_complement": 1200, "bp_difference": 500, "bp_gain": 500, "res2pix": 150,
-                               "filter_radius": 2500, "linearity": 250, "shift_commute": 250, "plane_wave": 2500,
+                               "hp_gain": 1200, "hp_complement": 1200, "bp_difference": 500, "bp_gain": 500,
+                               # res2pix / filter_radius: 1.6 x what the driver's OWN direct calls give (core halves the figure => floor at
+                               # 80% of it); calls coming from inside cryoCAT are not counted on, see drive_cutoff_rule
+                               "res2pix": 3300, "filter_radius": 4500, "linearity": 250, "shift_commute": 250, "plane_wave": 2500,
                                "resolution_equiv": 100})
     return dict(n_cases=16 * 50 * len(CLASSES), shards=16, classes=CLASSES, timeout_s=3300,
                 min_evals={"lp_gain": 50000, "lp_hard_edge": 25000, "lp_soft_edge": 25000, "lp_soft_rays": 8000, "lp_soft_symmetry": 6000,
-                           "hp_gain": 50000, "hp_complement": 50000, "bp_difference": 25000, "bp_gain": 25000, "res2pix": 10000,
-                           "filter_radius": 150000, "linearity": 8000, "shift_commute": 8000, "plane_wave": 120000,
+                           "hp_gain": 50000, "hp_complement": 50000, "bp_difference": 25000, "bp_gain": 25000, "res2pix": 67000,
+                           "filter_radius": 100000, "linearity": 8000, "shift_commute": 8000, "plane_wave": 120000,
                            "resolution_equiv": 5000})
 
 
@@ -623,9 +625,40 @@ def _close(ctx, name, got, want, scale, info, tol=1e-9):
     return ok
 
 
+def drive_cutoff_rule(ctx, case):
+    """Direct driver calls of the two monitored public helpers, with this case's in-quantifier cutoff specifications.
+
+    Why: the filter_radius / res2pix monitors must not depend on cryoCAT's internal call structure.  On the current tree they are
+    reached mostly because lowpass/highpass/bandpass call get_filter_radius, which calls resolution2pixels; a behaviour-preserving
+    refactoring (the filters using a private helper instead) would leave them blind and the run INCONCLUSIVE - a false alarm on
+    correct code (tools/audit_call_structure.sh).  So every case also calls both functions itself, in the documented keyword
+    forms: the cutoff as the case specifies it, as pixels, as pixels + pixel size, and as resolution + pixel size."""
+    cm = ctx.cmap
+    n0 = int(case["shape"][0])
+    aux = ctx.rng(case["i"], 2)
+    pix = case["pix"] if case["pix"] is not None else round(float(aux.uniform(0.5, 12.0)), 3)
+    for side in ("lp", "hp"):
+        cut = int(case[side + "_cut"])
+        res = case.get(side + "_res")
+        if res is None or case["mode_" + side] == "pixels":
+            res = _res_for(aux, n0, cut, pix)              # maps back to `cut`, away from a rounding tie
+        ctx.call("get_filter_radius", cm.get_filter_radius, edge_size=n0, fourier_pixels=_pix(case, cut), target_resolution=None,
+                 pixel_size=None)
+        ctx.call("get_filter_radius", cm.get_filter_radius, edge_size=n0, fourier_pixels=_pix(case, cut), target_resolution=None,
+                 pixel_size=pix)
+        ctx.call("get_filter_radius", cm.get_filter_radius, edge_size=n0, fourier_pixels=None, target_resolution=res, pixel_size=pix)
+        ok, got = ctx.call("resolution2pixels", cm.resolution2pixels, resolution=res, edge_size=n0, pixel_size=pix,
+                           print_out=bool(case["i"] % 2))
+        if ok:
+            # the rule must land on the cutoff the generator aimed at (independent of the call monitor: plain integers)
+            ctx.check("res2pix", _num(got) and got == cut, {"edge_size": n0, "pixel_size": pix, "resolution": res, "returned": repr(got),
+                                                            "expected": cut, "via": "driver"})
+
+
 def run_case(ctx, case):
     cm = ctx.cmap
     rng = ctx.rng(case["i"], 1)
+    drive_cutoff_rule(ctx, case)
     if case["cls"] == "plane_wave":
         return run_plane_waves(ctx, case, case["shape"], case["ks"], case["phases"], case["amp"], with_bandpass=True)
     x = make_field(case, rng)
